@@ -337,14 +337,17 @@ Fixpoint rq_unused (seen : list (list N)) (ps : list rq_param) : list rq_param :
          else p :: rq_unused seen r
   end.
 
+Definition kw_less_specifics : list N := [108; 101; 115; 115; 83; 112; 101; 99; 105; 102; 105; 99; 115] (* "lessSpecifics" *).
+Definition kw_more_specifics : list N := [109; 111; 114; 101; 83; 112; 101; 99; 105; 102; 105; 99; 115] (* "moreSpecifics" *).
+
 Record rq_includes := MkInc { i_less : bool; i_more : bool }.
 
 Fixpoint rq_parse_include_vals (vs : list (list N)) (acc : rq_includes) : option rq_includes :=
   match vs with
   | [] => Some acc
   | v :: r =>
-    if pc_bytes_eqb v ([108; 101; 115; 115; 83; 112; 101; 99; 105; 102; 105; 99; 115] (* "lessSpecifics" *)) then rq_parse_include_vals r (MkInc true (i_more acc))
-    else if pc_bytes_eqb v ([109; 111; 114; 101; 83; 112; 101; 99; 105; 102; 105; 99; 115] (* "moreSpecifics" *)) then rq_parse_include_vals r (MkInc (i_less acc) true)
+    if pc_bytes_eqb v kw_less_specifics then rq_parse_include_vals r (MkInc true (i_more acc))
+    else if pc_bytes_eqb v kw_more_specifics then rq_parse_include_vals r (MkInc (i_less acc) true)
     else None
   end.
 
